@@ -74,6 +74,7 @@ type Case struct {
 	Origin    []int   `json:"origin,omitempty"`     // outcome per Origin call, then ok
 	Rep       [][]int `json:"rep,omitempty"`        // per dependency: outcome per replicate request, then 200
 	Put       []int   `json:"put,omitempty"`        // outcome per put, then ok
+	Repush    int     `json:"repush,omitempty"`     // manager part: the tag is pushed again with another digest that has this many (other) dependencies
 }
 
 func genCase(t *rapid.T) Case {
@@ -92,11 +93,22 @@ func genCase(t *rapid.T) Case {
 		c.Rep = append(c.Rep, rapid.SliceOfN(rapid.SampledFrom([]int{rpOK, rpOK, rp202, rp202, rp202, rp500, rp503, rp404, rpDrop, rp409}), 0, 5).Draw(t, "rep"))
 	}
 	c.Put = rapid.SliceOfN(rapid.SampledFrom([]int{ptOK, pt500, pt503, ptDrop, ptStoredDrop, pt409}), 0, 3).Draw(t, "put")
+	if rapid.IntRange(0, 2).Draw(t, "repush") == 0 {
+		c.Repush = rapid.IntRange(1, 3).Draw(t, "repushDeps")
+	}
 	return c
 }
 
 func depDigest(i int) core.Digest {
 	d, err := core.NewDigester().FromBytes([]byte(fmt.Sprintf("c33 dependency blob %d", i)))
+	if err != nil {
+		panic(err)
+	}
+	return d
+}
+
+func tagDigest2() core.Digest {
+	d, err := core.NewDigester().FromBytes([]byte("c33 manifest, pushed again"))
 	if err != nil {
 		panic(err)
 	}
@@ -124,6 +136,7 @@ type world struct {
 	c            Case
 	deps         []core.Digest
 	digest       core.Digest
+	digest2      core.Digest // digest of the re-pushed tag; its dependencies are deps[c.NDeps:]
 	remoteOrigin string
 	hasTag       bool
 	confirmed    []bool // dependency i has been answered 200 by a local origin for the right remote
@@ -220,8 +233,16 @@ func (b buildIndex) ServeHTTP(rw http.ResponseWriter, r *http.Request) {
 	case r.Method == "PUT" && strings.HasPrefix(p, tagPath+"/digest/"):
 		w.mu.Lock()
 		// The remote build-index is being asked to store the tag: the property's moment.
+		putDigest := strings.TrimPrefix(p, tagPath+"/digest/")
+		lo, hi := 0, w.c.NDeps
+		if w.c.Repush > 0 && putDigest == w.digest2.String() {
+			lo, hi = w.c.NDeps, len(w.confirmed)
+		}
 		var missing []string
 		for i, ok := range w.confirmed {
+			if i < lo || i >= hi {
+				continue
+			}
 			if w.present != nil {
 				ok = w.present(i) // chain part: look into the remote origin's store
 			}
@@ -238,7 +259,7 @@ func (b buildIndex) ServeHTTP(rw http.ResponseWriter, r *http.Request) {
 			o = w.c.Put[w.putCalls]
 		}
 		w.putCalls++
-		okDigest := strings.TrimPrefix(p, tagPath+"/digest/") == w.digest.String()
+		okDigest := putDigest == w.digest.String() || (w.c.Repush > 0 && putDigest == w.digest2.String())
 		if !okDigest {
 			w.badRequests = append(w.badRequests, r.Method+" "+p)
 			w.logf("put", 0, "wrong-digest")
@@ -351,6 +372,7 @@ type rig struct {
 	w     *world
 	exec  *tagreplication.Executor
 	task  *tagreplication.Task
+	task2 *tagreplication.Task // the same tag pushed again with another digest (manager part)
 	close func()
 }
 
@@ -360,7 +382,10 @@ func sanitize(c Case) (Case, bool) {
 	if c.NDeps < 0 || c.NDeps > 8 || c.Origins < 1 || c.Origins > 2 || c.Tag == "" {
 		return c, false
 	}
-	for len(c.Rep) < c.NDeps {
+	if c.Repush < 0 || c.Repush > 4 {
+		return c, false
+	}
+	for len(c.Rep) < c.NDeps+c.Repush {
 		c.Rep = append(c.Rep, nil)
 	}
 	return c, true
@@ -368,9 +393,9 @@ func sanitize(c Case) (Case, bool) {
 
 func newRig(c Case) (*rig, error) {
 	fakenet.InstallDefault()
-	w := &world{c: c, digest: tagDigest(), remoteOrigin: "remote-origin.zone2:80", hasTag: c.Present,
-		confirmed: make([]bool, c.NDeps), repCalls: make([]int, c.NDeps)}
-	for i := 0; i < c.NDeps; i++ {
+	w := &world{c: c, digest: tagDigest(), digest2: tagDigest2(), remoteOrigin: "remote-origin.zone2:80", hasTag: c.Present,
+		confirmed: make([]bool, c.NDeps+c.Repush), repCalls: make([]int, c.NDeps+c.Repush)}
+	for i := 0; i < c.NDeps+c.Repush; i++ {
 		w.deps = append(w.deps, depDigest(i))
 	}
 	var closers []func()
@@ -417,8 +442,12 @@ func newRig(c Case) (*rig, error) {
 	// The cluster host list names a live origin: it answers the locations lookup.
 	cluster := blobclient.NewClusterClient(blobclient.NewClientResolver(blobclient.NewProvider(), hostlist.Fixture(first)))
 	ex := tagreplication.NewExecutor(tally.NoopScope, cluster, tagclient.NewProvider(nil))
-	task := tagreplication.NewTask(c.Tag, w.digest, core.DigestList(w.deps), bi.Addr, 0)
-	return &rig{w: w, exec: ex, task: task, close: closeAll}, nil
+	task := tagreplication.NewTask(c.Tag, w.digest, core.DigestList(w.deps[:c.NDeps]), bi.Addr, 0)
+	var task2 *tagreplication.Task
+	if c.Repush > 0 {
+		task2 = tagreplication.NewTask(c.Tag, w.digest2, core.DigestList(w.deps[c.NDeps:]), bi.Addr, 0)
+	}
+	return &rig{w: w, exec: ex, task: task, task2: task2, close: closeAll}, nil
 }
 
 // badSteps counts the scripted outcomes that make an execution fail or poll again.
@@ -578,6 +607,34 @@ func runManager(c Case) pbt.Verdict {
 		err := db.Get(&n, `SELECT COUNT(*) FROM replicate_tag_task`)
 		return n, err
 	}
+	repushedWhilePersisted := false
+	if r.task2 != nil {
+		// The tag is pushed again, with another digest and other dependencies, once the first
+		// task has met its first obstacle (or has gone through): the manager is handed a task
+		// with the same (tag, destination) key while the first one may still be persisted.
+		poll := time.Now().Add(2 * time.Second)
+		for time.Now().Before(poll) {
+			w.mu.Lock()
+			met := w.hasTag
+			for _, e := range w.events {
+				if e.out == "500" || e.out == "503" || e.out == "drop" || e.out == "404" || e.out == "202" {
+					met = true
+				}
+			}
+			w.mu.Unlock()
+			if met {
+				break
+			}
+			time.Sleep(200 * time.Microsecond)
+		}
+		n, _ := count()
+		w.mu.Lock()
+		repushedWhilePersisted = n > 0 && !w.hasTag
+		w.mu.Unlock()
+		if err := m.Add(r.task2); err != nil {
+			return discard()
+		}
+	}
 	// Wait (generously; the work takes milliseconds) until the remote holds the tag. A
 	// task that disappears from the store while the remote does not hold the tag will
 	// never be retried: that is judged structurally, not by the clock.
@@ -633,13 +690,19 @@ func runManager(c Case) pbt.Verdict {
 		}
 	}
 	cl, nt := classes(c, w, execs)
+	if r.task2 != nil {
+		cl = append(cl, "tag-pushed-again-with-another-digest")
+		if repushedWhilePersisted {
+			cl = append(cl, "pushed-again-while-first-task-persisted")
+		}
+	}
 	return pbt.OK(nt, cl...)
 }
 
 func TestProp(t *testing.T) {
 	pbt.Main(t, pbt.Spec{
 		ID:   "C33",
-		Rule: "generated fault scripts for a replication task with 0-4 dependency blobs: per call outcomes of the remote build-index (Has: truthful/500/drop, Origin: ok/500/drop, tag put: stored/500/503/409/drop/stored-then-drop) and per dependency of the local origins' replicate-to-remote request (200/202/500/503/404/409/drop), 1-2 local origins (the first possibly down), 0-3 poll retries; real tagreplication.Executor + tagclient + blobclient.ClusterClient over HTTP fakes, executed again after every failure (part exec) or by the real persistedretry.Manager with the sqlite task store (part manager); oracle on the merged request log: whenever the remote build-index is asked to store the tag every dependency has been answered 200 for the right remote cluster before, an execution reports success only if the remote holds the tag, and once the scripted failures are used up replication completes; non-trivial = a put happened for a task with dependencies after at least one 202/failed replicate or a re-execution; distinct by case hash",
+		Rule: "generated fault scripts for a replication task with 0-4 dependency blobs: per call outcomes of the remote build-index (Has: truthful/500/drop, Origin: ok/500/drop, tag put: stored/500/503/409/drop/stored-then-drop) and per dependency of the local origins' replicate-to-remote request (200/202/500/503/404/409/drop), 1-2 local origins (the first possibly down), 0-3 poll retries; real tagreplication.Executor + tagclient + blobclient.ClusterClient over HTTP fakes, executed again after every failure (part exec) or by the real persistedretry.Manager with the sqlite task store (part manager; in one case out of three the same tag is handed to the manager again with another digest and other dependencies while the first task may still be persisted); oracle on the merged request log: whenever the remote build-index is asked to store the tag with a digest every dependency of that digest has been answered 200 for the right remote cluster before, an execution reports success only if the remote holds the tag, and once the scripted failures are used up replication completes; non-trivial = a put happened for a task with dependencies after at least one 202/failed replicate or a re-execution; distinct by case hash",
 		Assumptions: []string{
 			"the remote build-index fake and the local origin fakes are trusted; a local origin's 200 to the replicate request stands for 'blob uploaded to the remote origin cluster' (the real origin server answers 200 only after the upload)",
 			"'confirmed' is read cumulatively: a dependency confirmed in an earlier execution stays confirmed",
